@@ -66,6 +66,17 @@ let handle (x : Sexp.t) : string =
       | Sexp.List (Sexp.Atom "t" :: tf) -> (List.map parse_val (Sexp.field "base" tf), List.map parse_val (Sexp.field "alt" tf))
       | _ -> raise (Sexp.Parse_error "trial")) (match Sexp.field_opt "trials" fs with Some l -> l | None -> []) in
   let panicloc = match Sexp.field_opt "panicloc" fs with Some [l] -> Sexp.atom l | _ -> "?" in
+  (* kernel cross-check: the model cone of every root under the three variants (in the model's order), states_distinct_b *)
+  Registry.set_model_lazy (fun () ->
+      let cone v root = match coi_opt v sy root with
+        | None -> "none"
+        | Some l -> "(" ^ String.concat " " (List.map sym_str l) ^ ")" in
+      let roots = List.map (function
+          | Sexp.List (Sexp.Atom "r" :: rx :: _) ->
+              let root = expr_of_sexp rx in
+              "(" ^ String.concat " " (List.map (fun (_, v) -> cone v root) variants) ^ ")"
+          | _ -> raise (Sexp.Parse_error "root")) (Sexp.field "roots" fs) in
+      Printf.sprintf "(c17 %s%s)" (if in_domain then "true" else "false") (String.concat "" (List.map (fun r -> " " ^ r) roots)));
   let fails = ref [] and diffs = ref [] and errors = ref [] in
   let n_roots = ref 0 and order_same = ref true in
   List.iter (fun r ->
